@@ -103,10 +103,6 @@ package modifiers
 //@   ensures [event] result ==> (len(ghost.evlog) == old(len(ghost.evlog)) + 1 && typeis(last(ghost.evlog), *events.ContactTimezoneChangedEvent))
 //@   ensures [no_event] !result ==> ghost.evlog == old(ghost.evlog)
 
-//@ func (m *ChannelModifier) Apply
-//@   implements flows.Modifier.Apply
-//@   requires m != nil && contact != nil
-
 //@ func (m *FieldModifier) Apply
 //@   implements flows.Modifier.Apply
 //@   requires m != nil && contact != nil && EngRep(eng) && eng.(*engine.engine).options.MaxFieldChars >= 0
